@@ -164,6 +164,7 @@ V(t) == [ty |-> t, c |-> NoC, src |-> "v_" \o t]
 Pool == {V(t) : t \in Typed} \cup
   { [ty |-> "int8", c |-> NumC(Q(100)), src |-> "c_i8"], [ty |-> "uint8", c |-> NumC(Q(200)), src |-> "c_u8"],
     [ty |-> "int", c |-> NumC(Q(7)), src |-> "c_int"], [ty |-> "MyInt", c |-> NumC(Q(3)), src |-> "c_my"],
+    [ty |-> "MyInt", c |-> NumC(Q(7)), src |-> "AMy(7)"],          \* a constant conversion to an alias of the defined type MyInt
     [ty |-> "utint", c |-> NumC(Q(0)), src |-> "0"], [ty |-> "utint", c |-> NumC(Q(1)), src |-> "1"],
     [ty |-> "utint", c |-> NumC(Q(-1)), src |-> "(-1)"], [ty |-> "utint", c |-> NumC(Q(300)), src |-> "300"],
     [ty |-> "utfloat", c |-> NumC(Norm(3, 2)), src |-> "1.5"], [ty |-> "utfloat", c |-> NumC(Q(2)), src |-> "2.0"],
